@@ -28,7 +28,7 @@ ASSUMPTIONS = ['bit-equality is demanded only between executions of the same cod
                'paired-world numerics are compared by model name within 1e-9 (relative, floor 1e-9) and only for well-conditioned regressions '
                '(normal-matrix determinant > 1e-3 of the product of its diagonal); rankings may differ inside exact ties']
 PROBES = ['same_source_object_twice', 'both_users_same_source', 'bad_call_between', 'memmap_fitter', 'apdep', 'p1_filters_permuted',
-          'p2_models_permuted', 'p3_flux_scaled', 'ill_conditioned_skipped', 'earlier_results_rechecked', 'source_edited_in_place', 'refit_after_in_place_edit', 'mixed_named_and_wavelength_filters', 'bystander_fitter_alive', 'same_filter_twice_other_aperture']
+          'p2_models_permuted', 'p3_flux_scaled', 'ill_conditioned_skipped', 'earlier_results_rechecked', 'source_edited_in_place', 'refit_after_in_place_edit', 'mixed_named_and_wavelength_filters', 'bystander_fitter_alive', 'same_filter_twice_other_aperture', 'p4_models_relabelled', 'one_sed_on_another_grid']
 
 
 def budgets(tier):
@@ -40,6 +40,8 @@ def budgets(tier):
 def generate(rng, tier, idx):
     w = gen_world(rng, n_models=(1, 8), n_wav=(6, 20), n_filters=(2, 6), n_ap=(2, 4), n_par=(1, 1), allow_gz=False, allow_subdir=False)
     w['ext_n'] = 40
+    if w['format'] == 1 and w['n_models'] > 1 and rng.random() < 0.3:
+        w['mixed'] = rng.randrange(w['n_models'])        # one SED on another wavelength grid (per-file packages only)
     nf = len(w['filters'])
     pool = [gen_source(rng, nf, 'src%d' % i, flags=(0, 1, 1, 1, 1, 2, 3, 4, 9), min_fit=min(2, nf)) for i in range(rng.randint(1, 4))]
     steps = []
@@ -60,6 +62,7 @@ def generate(rng, tier, idx):
             'theta_seed': rng.randrange(1 << 30), 'listing_seed': rng.randrange(1 << 30),
             'p1_seed': rng.randrange(1 << 30) if rng.random() < 0.6 else None,
             'p2_seed': rng.randrange(1 << 30) if rng.random() < 0.5 else None,
+            'p4_seed': rng.randrange(1 << 30) if rng.random() < 0.5 else None,
             'p3_c': float('%.4g' % (10 ** rng.uniform(-4, 4))) if rng.random() < 0.6 else None,
             # cube packages: some entries of the filter list are monochromatic wavelengths (Quantities) instead of names
             'mono': [rng.random() < 0.4 for _ in range(nf)] if w['format'] == 2 and rng.random() < 0.5 else None,
@@ -160,6 +163,8 @@ def _execute(sc, sim, out):
         names = [((float(W.wav[picks[j % len(picks)]]) * u.micron).to(u.Unit(sc.get('mono_unit', 'micron'))) if m else nm)
                  for j, (nm, m) in enumerate(zip(names, sc['mono']))]
         out.probe('mixed_named_and_wavelength_filters')
+    if spec.get('mixed') is not None and spec['format'] == 1:
+        out.probe('one_sed_on_another_grid')
     centers = [f['center'] for f in W.fspec]
     for j_, nm_ in enumerate(names):
         if not isinstance(nm_, str):
@@ -380,6 +385,29 @@ def _execute(sc, sim, out):
                     if not _compare(out, 'model-permutation', ref[i][1], rr[1], 0.0, 'models permuted'):
                         break
                 paired.append('P2')
+        # ---- P4: the models carry other labels (the names are dealt out to the same SEDs in another way), so that
+        # the order of the files / rows changes with them; results are compared SED by SED
+        if not out.violations and sc.get('p4_seed') is not None and W.n_models > 1:
+            perm = np.random.default_rng(sc['p4_seed']).permutation(W.n_models)
+            W4 = World(spec)
+            W4.names = [W.names[int(perm[i])] for i in range(W.n_models)]
+            W4.perm = np.random.default_rng(sc['p4_seed'] + 1).permutation(W.n_models)
+            d4 = W4.write(sim.path('pkg4'))
+            r4 = pipe.call(pipe.convolve_model_dir, d4, W4.filters())
+            rf = new_fitter(dd=d4) if r4[0] == 'ok' else r4
+            if rf[0] != 'ok':
+                out.violate('fit-failed', 'package with relabelled models: %s: %s' % (pipe.exc_name(rf), rf[1]), key='p4/%s' % pipe.exc_name(rf))
+            else:
+                back = {W4.names[i]: W.names[i] for i in range(W.n_models)}
+                for i in fit_idx:
+                    rr = pipe.call(rf[1].fit, make_source(cur[i]))
+                    if rr[0] != 'ok':
+                        out.violate('fit-failed', 'fit on the relabelled package raised %s' % pipe.exc_name(rr), key='p4/%s' % pipe.exc_name(rr))
+                        break
+                    out.probe('p4_models_relabelled')
+                    if not _compare(out, 'model-relabelling', ref[i][1], rr[1], 0.0, 'models relabelled', rename=back):
+                        break
+                paired.append('P4')
         # ---- P3: flux scaling (distance-independent packages, flags in {0,1,9})
         if not out.violations and sc['p3_c'] is not None and not W.apdep:
             c = sc['p3_c']
@@ -407,9 +435,12 @@ def _execute(sc, sim, out):
     out.trace = trace
 
 
-def _compare(out, clause, a, b, dsc, what):
+def _compare(out, clause, a, b, dsc, what, rename=None):
     A, ra = _by_name(a)
     B, rb = _by_name(b)
+    if rename is not None:
+        B = {rename.get(k_, k_): v_ for k_, v_ in B.items()}
+        rb = [rename.get(k_, k_) for k_ in rb]
     out.compared(clause)
     if sorted(A) != sorted(B):
         out.violate(clause, '%s: model sets differ' % what)
@@ -428,8 +459,8 @@ def _compare(out, clause, a, b, dsc, what):
 
 
 def lowerings(sc, viol=None):
-    for key in ('p1_seed', 'p2_seed', 'p3_c'):
-        if sc[key] is not None:
+    for key in ('p1_seed', 'p2_seed', 'p3_c', 'p4_seed'):
+        if sc.get(key) is not None:
             yield dict(sc, **{key: None})
     if sc.get('dup_filter'):
         yield dict(sc, dup_filter=None)
